@@ -43,6 +43,24 @@ def c09_runs(tier, scale):
     return [("c09", [800 * scale, 3, 1], None), ("c09", [700 * scale, 4, 0], None)]
 
 
+def c10_runs(tier, scale):
+    if tier == "thorough":
+        return [("c10", [4000 * scale, 2 + (i % 4)], None) for i in range(16)]
+    return [("c10", [900 * scale, 3], None), ("c10", [600 * scale, 4], None)]
+
+
+def c11_runs(tier, scale):
+    if tier == "thorough":
+        return [("c11", [4000 * scale, 2 + (i % 4)], None) for i in range(16)]
+    return [("c11", [900 * scale, 3], None), ("c11", [600 * scale, 4], None)]
+
+
+def c12_runs(tier, scale):
+    if tier == "thorough":
+        return [("c12", [4000 * scale, 2 + (i % 4)], None) for i in range(16)]
+    return [("c12", [900 * scale, 3], None), ("c12", [600 * scale, 4], None)]
+
+
 def c05_runs(tier, scale):
     th = 1 if tier == "thorough" else 0
     runs = [("c05", [lim, th], None) for lim in ([4096, 65536, 1 << 20] if tier == "quick" else [4096, 16384, 65536, 1 << 20, 16 << 20])]
@@ -104,6 +122,11 @@ def c15_runs(tier, scale):
         return [("c15", [1], None), ("c15", [1, "ratio"], None), ("c04", [300 * scale], None), ("c05", [65536, 1], None)]
     return [("c15", [0], None), ("c15", [0, "ratio"], None), ("c04", [40 * scale], None)]
 
+
+TEXT_TB = ["the schema-text model (names, parser state machine, serializer, canonical form) is hand-written and validated by exact rows; JSON objects are key-sorted without duplicates (serde_json without preserve_order)",
+                         "the parser's default check is the resolution model applied to the lowered schema (AvroModel/SchemaDefault.lean)",
+                         "regex_lite matching of the four grammars is modelled by explicit recognisers (isIdent, isNamespace, schemaNameIndex)",
+                         "JSON text escaping and float formatting are serde_json's; rows compare token trees read back by an order- and duplicate-preserving reader in the harness"]
 
 PROPS = {
     "C01": {
@@ -226,6 +249,46 @@ PROPS = {
                 "oracle: Full => 6 generated values of W read through GenericDatumReader with reader schema; safe-only pairs are not Err; can_read(W, W) = Full; mutual_read symmetric",
         "trusted_base": ["the pointer-keyed memo table of the checker is not modelled (it caches results of a pure function after they are computed; DefaultHasher collisions on addresses are ignored)",
                          "schemas are printed for the model with fully qualified names (harness printer)"],
+        "assumptions": [],
+    },
+    "C10": {
+        "lean_modules": ["AvroProofs.C10"],
+        "theorems": [],
+        "partial": [],
+        "harness": c10_runs,
+        "projection": "exact",
+        "nontrivial": lambda l: True,
+        "rule": "schema texts: a fixed catalogue (every repaired / recorded defect), generated schemas (nested namespaces inherited / overridden / empty, dotted names, references, every logical type), "
+                "decorated ones (docs with escapes, aliases, custom attributes incl. reserved names on every node, field defaults, order), single mutations of those at a random JSON path, "
+                "pretty-printed variants; rows: parse -> serialize (token tree) and parse -> canonical form + Rabin, exact; oracle: no duplicate keys, re-parse + re-serialize identical, == holds, "
+                "the header of a file written with the schema carries the same JSON",
+        "trusted_base": TEXT_TB,
+        "assumptions": [],
+    },
+    "C11": {
+        "lean_modules": ["AvroProofs.C11"],
+        "theorems": [],
+        "partial": [],
+        "harness": c11_runs,
+        "projection": "exact",
+        "nontrivial": lambda l: True,
+        "rule": "as C10 (mutations weigh more); oracle: no panic in parse; an accepted schema is well formed by an independent walk (name / symbol / field-name grammars, unique full names, "
+                "union rules, enum default, unique field names) and ResolvedSchema::new succeeds; canonical_form, fingerprint x3, to_string, ResolvedSchema::new, Debug complete; generated and "
+                "decorated (well-formed) texts are accepted",
+        "trusted_base": TEXT_TB,
+        "assumptions": [],
+    },
+    "C12": {
+        "lean_modules": ["AvroProofs.C12", "AvroProofs.C18"],
+        "theorems": [],
+        "partial": [],
+        "harness": c12_runs,
+        "projection": "exact",
+        "nontrivial": lambda l: True,
+        "rule": "as C10; oracle: canonical_form = an independent implementation of the specification's seven rules on the schema JSON; parse(canonical form) canonicalises to itself; Rabin = the "
+                "harness's bit-serial CRC-64-AVRO, MD5 / SHA-256 = those digests of the same bytes (md-5, sha2 crates); second call identical; removing docs / aliases / defaults / other attributes "
+                "keeps the form",
+        "trusted_base": TEXT_TB,
         "assumptions": [],
     },
     "C05": {
